@@ -6,7 +6,7 @@ from ..apigen import File, INT_SCALARS
 
 RULE = ("(1) classification: request/response shapes built around the AIP-4233 rule — one-factor variations of the "
         "conventional List shape over every paging field (absent / each integer kind / non-integer scalars / wrappers / "
-        "other messages / enum / repeated label / near-miss names) plus random products, field numbers permuted against declaration order, with 0..3 repeated response "
+        "other messages / enum / repeated label / near-miss names / presence: plain, proto3 optional, member of a real oneof) plus random products, field numbers permuted against declaration order, with 0..3 repeated response "
         "fields (messages of the same file, of another file, of another package, scalars, maps) in random positions; "
         "one case = one (request shape, response shape); non-trivial = the request has at least one of the paging field names. "
         "(2) pager behaviour: generated libraries (grpc / grpc+rest / rest) whose paged methods are called through the sync, "
@@ -39,9 +39,26 @@ SIG_MAPIMPORT = "paging.map_value_type_not_imported"
 
 
 # ---------------------------------------------------------------------------------------------- shapes
-def fld(name, typ, repeated=False, map_=None):
-    """typ: scalar name | 'msg:<fqn>' | 'enum:<fqn>'; map_: (key scalar, value typ) makes a map field."""
-    return {"name": name, "type": typ, "repeated": bool(repeated or map_), "map": list(map_) if map_ else None}
+def fld(name, typ, repeated=False, map_=None, presence=None):
+    """typ: scalar name | 'msg:<fqn>' | 'enum:<fqn>'; map_: (key scalar, value typ) makes a map field;
+    presence: None (plain) | 'optional' (proto3 optional) | 'oneof:<group>' (member of a real oneof) — singular fields only."""
+    f = {"name": name, "type": typ, "repeated": bool(repeated or map_), "map": list(map_) if map_ else None}
+    if presence and not f["repeated"]:
+        f["presence"] = presence
+    return f
+
+
+def with_presence(f, presence):
+    f = dict(f)
+    f.pop("presence", None)
+    if presence and not f["repeated"]:
+        f["presence"] = presence
+    return f
+
+
+def coq_presence(f):
+    p = f.get("presence")
+    return "PPlain" if not p else "POptional" if p == "optional" else f"(POneof {coq.s(p.split(':', 1)[1])})"
 
 
 def short(fqn):
@@ -71,7 +88,7 @@ def coq_type(f, owner_fqn):
 
 
 def coq_shape(shape, owner_fqn):
-    return coq.lst(f"(mkField {coq.s(f['name'])} {coq_type(f, owner_fqn)} {coq.b(f['repeated'])} {coq.b(bool(f['map']))})" for f in shape)
+    return coq.lst(f"(mkField {coq.s(f['name'])} {coq_type(f, owner_fqn)} {coq.b(f['repeated'])} {coq.b(bool(f['map']))} {coq_presence(f)})" for f in shape)
 
 
 def renumber(r, shape):
@@ -85,6 +102,9 @@ def renumber(r, shape):
 
 
 def add_fields(msg, shape, file):
+    # real oneofs are declared first (protoc puts the synthetic oneofs of proto3-optional fields after them)
+    for g in dict.fromkeys(f["presence"].split(":", 1)[1] for f in shape if str(f.get("presence", "")).startswith("oneof:")):
+        msg.proto.oneof_decl.add().name = g
     for i, f in enumerate(shape, 1):
         i = f.get("number", i)
         if f["map"]:
@@ -92,12 +112,18 @@ def add_fields(msg, shape, file):
             msg.map_field(f["name"], i, k, v[4:] if v.startswith("msg:") else v)
             continue
         t = f["type"]
+        pres = f.get("presence")
+        kw = {"repeated": f["repeated"]}
+        if pres == "optional":
+            kw["optional"] = True
+        elif pres:
+            kw["oneof"] = pres.split(":", 1)[1]
         if t.startswith("msg:"):
-            msg.field(f["name"], i, t[4:], repeated=f["repeated"])
+            msg.field(f["name"], i, t[4:], **kw)
         elif t.startswith("enum:"):
-            msg.field(f["name"], i, ("enum", t[5:]), repeated=f["repeated"])
+            msg.field(f["name"], i, ("enum", t[5:]), **kw)
         else:
-            msg.field(f["name"], i, t, repeated=f["repeated"])
+            msg.field(f["name"], i, t, **kw)
 
 
 # ---- the property's own sentence on a shape (direct oracle; independent of the model and of /repo) ----
@@ -235,6 +261,29 @@ def classification_cases(r, n_random):
     for mk in REPEATED_SLOTS:      # every kind of first repeated field, followed by a message list
         resp = [fld("total_size", "int32"), mk("first_rep"), fld("books", "msg:." + PKG + ".Book", True), fld("next_page_token", "string")]
         add(gen_request(r), resp, ["first-repeated-kind"])
+    # presence of the paging fields: plain / proto3 optional (the Compute shape) / member of a real oneof
+    def presence_variant(pt=None, ps=None, mr=None, nx=None, use_mr=False):
+        rq = gen_request(r, page_size=None if use_mr else ("int32", False), max_results=("int32", False) if use_mr else None)
+        rs = gen_response(r, n_rep=r.choice([1, 2]))
+        want = {"page_token": pt, "page_size": ps, "max_results": mr}
+        rq = [with_presence(f, want.get(f["name"])) for f in rq]
+        rs = [with_presence(f, nx if f["name"] == "next_page_token" else None) for f in rs]
+        for grp, shape, sib in (("position", rq, "cursor"), ("next", rs, "next_cursor"), ("limit", rq, "limit_bytes")):
+            if any(f.get("presence") == "oneof:" + grp for f in shape) and r.random() < 0.6:
+                shape.append(fld(sib, "string", presence="oneof:" + grp))
+        return rq, rs
+    for pv in ("optional", "oneof:position"):
+        add(*presence_variant(pt=pv), ["presence-page_token"])
+    for pv in ("optional", "oneof:next"):
+        add(*presence_variant(nx=pv), ["presence-next_page_token"])
+    for pv in ("optional", "oneof:limit"):
+        add(*presence_variant(ps=pv), ["presence-page_size"])
+        add(*presence_variant(mr=pv, use_mr=True), ["presence-max_results"])
+    add(*presence_variant(pt="optional", ps="optional", nx="optional"), ["presence-all-optional"])
+    add(*presence_variant(pt="optional", mr="optional", nx="optional", use_mr=True), ["presence-all-optional"])
+    add(*presence_variant(pt="oneof:position", ps="oneof:limit", nx="oneof:next"), ["presence-all-oneof"])
+    add(*presence_variant(pt="optional", nx="oneof:next"), ["presence-mixed"])
+    add(*presence_variant(pt="oneof:position", nx="optional"), ["presence-mixed"])
     # repeated fields NOT numbered in declaration order: the item field is the first one DECLARED
     B = "msg:." + PKG + ".Book"
     for resp in (
@@ -258,7 +307,12 @@ def classification_cases(r, n_random):
         nxt = r.choice([None] + token_types + [("string", False)] * 8)
         ps = r.choice([None] * 3 + size_types + [("int32", False)] * 6)
         mr = r.choice([None] * 12 + size_types)
-        add(gen_request(r, token=tok, page_size=ps, max_results=mr), gen_response(r, token=nxt), ["random"])
+        rq, rs = gen_request(r, token=tok, page_size=ps, max_results=mr), gen_response(r, token=nxt)
+        if r.random() < 0.3:
+            pick = lambda: r.choice([None, "optional", "optional", "oneof:grp"])
+            rq = [with_presence(f, pick()) if f["name"] in ("page_token", "page_size", "max_results") else f for f in rq]
+            rs = [with_presence(f, pick()) if f["name"] == "next_page_token" else f for f in rs]
+        add(rq, rs, ["random"])
     return cases
 
 
@@ -343,7 +397,9 @@ def short_shape(shape):
             t = f"map<{f['map'][0]},{short(f['map'][1])}>"
         elif ":" in t:
             t = short(t) if not t.startswith("msg:.acme") else "acme." + short(t)
-        return f"{'repeated ' if f['repeated'] and not f['map'] else ''}{t} {f['name']}" + (f" = {f['number']}" if "number" in f else "")
+        pres = f.get("presence")
+        pre = "optional " if pres == "optional" else (f"oneof({pres[6:]}) " if pres else "")
+        return f"{pre}{'repeated ' if f['repeated'] and not f['map'] else ''}{t} {f['name']}" + (f" = {f['number']}" if "number" in f else "")
     return "{" + "; ".join(one(f) for f in shape) + "}"
 
 
@@ -466,6 +522,18 @@ def library_api(r, transports):
         r.shuffle(resp)
         if paged_intent or r.random() < 0.5:
             resp.insert(r.randint(0, len(resp)), fld("next_page_token", "string"))
+        # presence of the paging fields: the first method of a library is the Compute shape (all proto3 optional), the second has
+        # its tokens in real oneofs, the others are drawn
+        pres = ["optional-all", "oneof"][i] if i < 2 else r.choice(["plain", "plain", "optional-tokens", "optional-all", "oneof"])
+        if pres != "plain":
+            tok_p = "oneof:position" if pres == "oneof" else "optional"
+            nxt_p = "oneof:next" if pres == "oneof" else "optional"
+            size_p = "optional" if pres == "optional-all" else None
+            req = [with_presence(f, tok_p if f["name"] == "page_token" else size_p if f["name"] in ("page_size", "max_results") else None) for f in req]
+            resp = [with_presence(f, nxt_p if f["name"] == "next_page_token" else None) for f in resp]
+            if pres == "oneof":
+                req.append(fld("cursor", "string", presence="oneof:position"))
+                resp.append(fld("next_cursor", "string", presence="oneof:next"))
         if r.random() < 0.6:
             renumber(r, resp)
         if r.random() < 0.3:
@@ -476,7 +544,7 @@ def library_api(r, transports):
         coll = snake(w).replace("_", "")
         svc.rpc(name, rq.fqn, rs.fqn, http=("get", f"/v1/{{parent=projects/*}}/{coll}"))
         rpcs.append({"name": name, "snake": snake(name), "req": req, "resp": resp, "req_fqn": rq.fqn, "resp_fqn": rs.fqn,
-                     "path": f"/{pkg}.{svc_name}/{name}", "item_kind": ikind, "size": (sname, stype), "coll": coll})
+                     "path": f"/{pkg}.{svc_name}/{name}", "item_kind": ikind, "size": (sname, stype), "coll": coll, "presence": pres})
     files = ([second] if two_files else []) + [main]
     request = apigen.request(files, parameter="transport=" + transports)
     info = {"package": pkg, "pypkg": pypkg, "service": svc_name, "module": snake(svc_name), "rpcs": rpcs, "transports": transports,
@@ -879,7 +947,7 @@ def eval_drive(ctx, D, info, lib_i, req_b64, call, res, checks, pending):
         visited = full
     ctx.case({"lib": lib_i, "rpc": m["name"], "kind": kind, "mode": mode, "hist": hist, "sent_token": call["sent_token"]},
              nontrivial=len(visited) > 1 or any(p[0] for p in visited),
-             feature=[f"drive-{kind}", f"mode-{mode}", f"pages={len(full)}", "break-holding-page>=2" if mode == "pages-break" and brk >= 1 else "no-late-break", f"item-{m['item_kind']}", f"size-{m['size'][0]}:{short(m['size'][1])}",
+             feature=[f"drive-{kind}", f"mode-{mode}", f"pages={len(full)}", "break-holding-page>=2" if mode == "pages-break" and brk >= 1 else "no-late-break", f"item-{m['item_kind']}", f"size-{m['size'][0]}:{short(m['size'][1])}", f"paging-fields-{m.get('presence', 'plain')}",
                       "empty-intermediate-page" if any(not p[0] for p in visited[:-1]) else "no-empty-intermediate",
                       "unreachable-extra-pages" if len(hist["pages"]) > hist["visited"] else "no-extra-pages",
                       "initial-token" if call["sent_token"] else "no-initial-token", f"timeout-{call.get('timeout_mode', 'value')}",
